@@ -153,8 +153,14 @@ func c14TagsOverlay(rc *RC) {
 	var held []*heldSnapshot
 	full := obsOpts{}
 	edits := 0
+	// most runs hold up to three snapshots; one in four goes deep (up to
+	// eight layers under the live world, snapshots taken more often)
+	maxHeld, snapPct := 3, 20
+	if rc.Pct(25) {
+		maxHeld, snapPct = 8, 45
+	}
 	for i := 0; i < steps && !rc.Failed(); i++ {
-		if len(held) < 3 && rc.Pct(20) {
+		if len(held) < maxHeld && rc.Pct(snapPct) {
 			var s b6.World
 			if !rc.Guard(name+"/panic", func() { s = w.Snapshot() }) {
 				return
@@ -180,7 +186,7 @@ func c14TagsOverlay(rc *RC) {
 			edits++
 		}
 		for _, h := range held {
-			if rc.Pct(40) || i == steps-1 {
+			if rc.Pct(40*3/max(3, len(held))) || i == steps-1 {
 				now := Observe(h.w, ids, full)
 				if d := h.record.Diff(now, 1); len(d) > 0 {
 					rc.Fail(name+"/snapshot-changed:"+section(d[0]), "the snapshot taken before step %d answers differently after step %d (AddTag(%s, %q=%q)):\n%s", h.at, i, id, k, v, h.record.DiffString(now, "when taken", "now       "))
@@ -204,6 +210,9 @@ func c14TagsOverlay(rc *RC) {
 	rc.SetNontrivial(len(held) > 0 && edits >= 2)
 	if len(held) >= 2 {
 		rc.Probe("snapshot-nested>=2")
+	}
+	if len(held) >= 5 {
+		rc.Probe("snapshot-nested>=5")
 	}
 	_ = fmt.Sprint
 }
